@@ -46,8 +46,12 @@ PATTERNS = [
     ("all", r"^.*\.zo$", ""),
     ("unanchored", r"notes", ""),
     ("prj", r"^prj_(?P<name>[a-z]+)", "name"),
+    ("zoq", r"^queries/(?P<name>[a-z]+)\.zoq$", "name"),
+    ("md", r"^refs/[a-z]+\.md$", ""),
+    ("any", r"^.+$", ""),
 ]
-TARGETS = ["20240131_habit.zo", "20240131_done", "20240229.zo", "20241231_day_x.zo", "2024/20240101.zo", "sub/notes.zo", "sub/in_box", "notes", "prj_zorg.zo", "prj_zorg", "sub/deep/x.zo", "other.zo", "my notes".replace(" ", "_") + ".zo", "sub/my_notes.zo", "UPPER.zo"]
+TARGETS = ["20240131_habit.zo", "20240131_done", "20240229.zo", "20241231_day_x.zo", "2024/20240101.zo", "sub/notes.zo", "sub/in_box", "notes", "prj_zorg.zo", "prj_zorg", "sub/deep/x.zo", "other.zo", "my notes".replace(" ", "_") + ".zo", "sub/my_notes.zo", "UPPER.zo",
+           "queries/open.zoq", "queries/closed.zoq", "refs/books.md", "v1.2", "sub/list.txt", "refs/books.md", "queries/open.zoq"]
 
 
 def template_text(tid: str, var: str) -> str:
@@ -136,11 +140,16 @@ def run_case(acc: Acc, seed: int, idx: int) -> None:
         f.parent.mkdir(parents=True, exist_ok=True)
         old = rng.choice(["# precious\n\n- user text that must survive\n", "", "# T=all who=\n", "not even a valid page"])
         f.write_text(old)
+    if rng.random() < 0.4:
+        sib = root / (str(Path(rel).with_suffix("")) + (".zo" if not rel.endswith(".zo") else ".zoq"))
+        if not sib.exists() and sib != root / rel:
+            sib.parent.mkdir(parents=True, exist_ok=True)
+            sib.write_text("# sibling with another suffix\n")
     overwrite = rng.random() < 0.25
     who = rng.choice(["", "bob", "a_b"])
     route = rng.choice(["api", "api", "cli_template_init", "cli_edit"])
-    if route == "cli_edit" and (overwrite or who):
-        route = "api"
+    if route == "cli_edit" and (overwrite or who or rel.endswith(".zoq")):
+        route = "api"  # (`edit` of a .zoq page refreshes the query results: another feature)
     if route == "cli_edit" and existed:
         # `edit` reindexes the directory after the editor closes: the page must be indexable
         old = "# precious\n\n- 240101#Ab user text that must survive\n"
